@@ -186,6 +186,8 @@ class FileDirectivePduBase(AbstractFileDirectiveBase):
         header_len = file_directive.pdu_header.header_len + 1
         if header_len > len(raw_packet):
             raise BytesTooShortError(header_len, len(raw_packet))
+        if file_directive.pdu_header.pdu_data_field_len < 1:
+            raise ValueError("PDU data field too short to hold the directive code")
         file_directive._directive_type = raw_packet[header_len - 1]
         return file_directive
 
